@@ -23,6 +23,6 @@ Do not modify tests, do not touch src/verif.rs or the `#[cfg(feature = "verif")]
 
 Deliver, inside {wt}:
   1. the source change itself, left UNCOMMITTED in the working tree (so `git -C {wt} diff` shows exactly your change);
-  2. a demonstration that fails with your change and passes without it: preferably a small Rust program at {wt}/examples/demo_{pid.lower()}.rs using the public API (`asca::run(&[asca::RuleGroup::from_rules(vec![..])], &[words], &[], &[])`, `asca::trace_changes`, `asca::Segment`/`asca::Place` …) that exits 0 when the property holds on its input and exits 1 (printing what differed) when it does not — or, for CLI properties, a shell script {wt}/demo_{pid.lower()}.sh doing the same with the built `asca` binary. Verify both directions yourself: run it with your change (must fail) and with `git stash` (must pass), then `git stash pop`.
+  2. a demonstration that fails with your change and passes without it: preferably a small Rust program at {wt}/examples/demo_{pid.lower()}.rs using the public API (`asca::run(&[asca::RuleGroup::from_rules(vec![..])], &[words], &[], &[])`, `asca::trace_changes`, `asca::Segment`/`asca::Place` …) that exits 0 when the property holds on its input and exits 1 (printing what differed) when it does not — or, for CLI properties, a shell script {wt}/demo_{pid.lower()}.sh doing the same with the built `asca` binary. Verify both directions yourself: run it with your change (must fail) and without it (must pass) — take the change out with `git diff > /tmp/{pid}.patch; git apply -R /tmp/{pid}.patch` and put it back with `git apply /tmp/{pid}.patch`; do NOT use `git stash` (the stash is shared with other worktrees of this repository).
   3. a short file {wt}/SEED_NOTES.md: what you changed and why it looks plausible, what exactly is needed for it to manifest, the exact commands you ran and their outcome.
 Files 2 and 3 are untracked files; that is fine. Finish with a brief summary of the same. Keep the change minimal (typically 1–10 lines).""")
